@@ -67,6 +67,30 @@ def env():
   return _env
 
 
+def reset_universe():
+  """The cheap model of a fresh process: every module of the repository is dropped from
+  sys.modules and imported again (fresh module globals, fresh class-level tables, fresh
+  clock).  What it does not reset is state kept outside the repository's modules; every
+  disagreement seen under this model is therefore re-examined with real processes
+  (fork of a never-used zygote) before it counts."""
+  global _env
+  import importlib
+  doomed = []
+  for name, mod in list(sys.modules.items()):
+    f = getattr(mod, '__file__', None)
+    try:
+      paths = [str(x) for x in (getattr(mod, '__path__', None) or [])]
+    except Exception:
+      paths = []
+    if (f and f.startswith(core.REPO + os.sep)) or any(x.startswith(core.REPO) for x in paths):
+      doomed.append(name)
+  for name in doomed:
+    del sys.modules[name]
+  importlib.invalidate_caches()
+  _env = None
+  return env()
+
+
 def snapshot_execution(sql, e):
   return {'sql': sql, 'preamble': e.preamble, 'defines': list(e.defines_and_exports),
           'main': e.main_predicate_sql,
@@ -189,24 +213,38 @@ def in_fork(fn, timeout=300):
 
 # ------------------------------------------------------------------ reference server
 
-class RefServer(object):
-  """A second interpreter with another PYTHONHASHSEED that answers compile requests,
-  each in a fresh fork of its own pristine state."""
+class Server(object):
+  """A separate interpreter with its own PYTHONHASHSEED answering requests.
 
-  def __init__(self, hashseed):
+  mode 'fork' : the server never parses or compiles anything itself; every request runs
+                in a fork of that pristine zygote (a real fresh process image).
+  mode 'reset': the server resets its module universe before every request (cheap)."""
+
+  def __init__(self, hashseed, mode):
     self.hashseed = hashseed
+    self.mode = mode
     self.p = subprocess.Popen(
-        [core.PY, os.path.join(core.VERIF, 'lsim', 'refserver.py')],
+        [core.PY, os.path.join(core.VERIF, 'lsim', 'refserver.py'), mode],
         env=core.child_env(hashseed), stdin=subprocess.PIPE, stdout=subprocess.PIPE,
         stderr=subprocess.PIPE, text=True, bufsize=1)
 
-  def ask(self, req, pred):
-    self.p.stdin.write(json.dumps({'req': req, 'pred': pred}) + '\n')
+  def ask(self, job):
+    self.p.stdin.write(json.dumps(job) + '\n')
     self.p.stdin.flush()
     line = self.p.stdout.readline()
     if not line:
-      raise RuntimeError('reference server died: %s' % self.p.stderr.read()[-2000:])
-    return json.loads(line)
+      raise RuntimeError('server (%s, hashseed %s) died: %s' % (
+          self.mode, self.hashseed, self.p.stderr.read()[-2000:]))
+    j = json.loads(line)
+    if 'harness_error' in j:
+      raise RuntimeError('server failed: ' + j['harness_error'])
+    return j['ok']
+
+  def compile(self, req, pred):
+    return self.ask({'kind': 'compile', 'req': req, 'pred': pred})
+
+  def history(self, case):
+    return self.ask({'kind': 'history', 'case': case})
 
   def close(self):
     try:
@@ -216,7 +254,13 @@ class RefServer(object):
       self.p.kill()
 
 
-def refserver_main():
+def serve_job(j):
+  if j['kind'] == 'compile':
+    return do_compile(j['req'], j['pred'])[0]
+  return run_history_here(j['case'])
+
+
+def refserver_main(mode):
   env()
   real_out = sys.stdout
   sys.stdout = open(os.devnull, 'w')
@@ -224,24 +268,76 @@ def refserver_main():
     if not line.strip():
       continue
     j = json.loads(line)
-    res = in_fork(lambda: do_compile(j['req'], j['pred'])[0])
-    real_out.write(json.dumps(res) + '\n')
+    try:
+      if mode == 'fork':
+        res = in_fork(lambda: serve_job(j))
+      else:
+        reset_universe()
+        res = serve_job(j)
+      out = {'ok': res}
+    except BaseException as e:
+      out = {'harness_error': '%s: %s' % (type(e).__name__, e)}
+    real_out.write(json.dumps(out) + '\n')
     real_out.flush()
+
+
+class Procs(object):
+  """The processes of one batch / replay: who computes what, under which hash seed."""
+
+  def __init__(self, hashseed, ref_hashseed, local_is_pristine_zygote):
+    self.hashseed = hashseed
+    self.ref_hashseed = ref_hashseed
+    self.local_zygote = local_is_pristine_zygote
+    self.servers = {}
+    self.forks = 0
+    self.resets = 0
+
+  def server(self, which, mode):
+    k = (which, mode)
+    if k not in self.servers:
+      self.servers[k] = Server(self.hashseed if which == 'same' else self.ref_hashseed, mode)
+    return self.servers[k]
+
+  def run(self, which, mode, job):
+    """which: 'same' | 'other' hash seed; mode: 'fork' | 'reset'."""
+    if mode == 'fork':
+      self.forks += 1
+    else:
+      self.resets += 1
+    if which == 'same' and mode == 'reset':
+      reset_universe()
+      return json.loads(json.dumps(serve_job(job)))
+    if which == 'same' and mode == 'fork' and self.local_zygote:
+      return in_fork(lambda: serve_job(job))
+    return self.server(which, mode).ask(job)
+
+  def close(self):
+    for sv in self.servers.values():
+      sv.close()
 
 
 # ------------------------------------------------------------------ workload: programs
 
-def corpus_requests():
-  """(file, predicates) of the repository's own .l programs; listed in a fork (pristine zygote)."""
+def corpus_files():
+  old = os.getcwd()
+  os.chdir(core.REPO)
+  try:
+    return sorted(glob.glob('integration_tests/*.l') + glob.glob('integration_tests/*/*.l') +
+                  glob.glob('integration_tests/*/*/*.l') +
+                  glob.glob('type_inference/research/integration_tests/*.l'))
+  finally:
+    os.chdir(old)
+
+
+def corpus_requests(files):
+  """(file, text, predicates) of the given .l programs of the repository; parsed in a
+  fork so that the zygote stays pristine. Files that do not parse on their own are skipped."""
   def work():
     E = env()
     old = os.getcwd()
     os.chdir(core.REPO)
     out = []
     try:
-      files = sorted(glob.glob('integration_tests/*.l') + glob.glob('integration_tests/*/*.l') +
-                     glob.glob('integration_tests/*/*/*.l') +
-                     glob.glob('type_inference/research/integration_tests/*.l'))
       for f in files:
         text = open(f).read()
         try:
@@ -258,7 +354,8 @@ def corpus_requests():
     finally:
       os.chdir(old)
     return out
-  return in_fork(work)
+  reset_universe()
+  return work()
 
 
 ENGINES = ['sqlite', 'sqlite', 'psql', 'duckdb', 'bigquery']
@@ -375,10 +472,11 @@ def gen_import_tree(r, root):
   return main, preds
 
 
-def build_pool(r, scratch, corpus, tier):
+def build_pool(r, scratch, files, tier, procs=None):
   pool = []
   n_corpus = 6 if tier == 'quick' else 10
-  for f, text, preds in r.sample(corpus, min(n_corpus, len(corpus))):
+  corpus = corpus_requests(r.sample(files, min(n_corpus + 3, len(files))))[:n_corpus]
+  for f, text, preds in corpus:
     pool.append({'kind': 'corpus', 'file': f, 'main': text, 'root': None, 'cwd': core.REPO,
                  'flags': None, 'preds': preds, 'bad': False})
   for i in range(8 if tier == 'quick' else 14):
@@ -457,34 +555,26 @@ def feature_key(req, root_files=None):
 
 
 class Oracle(object):
-  """References per (program, predicate): pristine under the batch hash seed (by fork)
-  and pristine under another hash seed (reference server)."""
+  """References per (program, predicate): pristine under the batch hash seed and pristine
+  under another hash seed, each in the cheap (reset) or the real (fork) process model."""
 
-  def __init__(self, pool, refserver):
+  def __init__(self, pool, procs):
     self.pool = pool
-    self.refserver = refserver
-    self.same = {}
-    self.other = {}
+    self.procs = procs
+    self.memo = {}
 
   def req(self, pi):
     q = self.pool[pi]
     return {'main': q['main'], 'root': q['root'], 'cwd': q['cwd'], 'flags': q['flags']}
 
-  def pristine_same(self, pi, pred):
-    k = (pi, pred)
-    if k not in self.same:
-      req = self.req(pi)
-      self.same[k] = in_fork(lambda: do_compile(req, pred)[0])
-    return self.same[k]
-
-  def pristine_other(self, pi, pred):
-    k = (pi, pred)
-    if k not in self.other:
-      self.other[k] = self.refserver.ask(self.req(pi), pred)
-    return self.other[k]
+  def pristine(self, which, mode, pi, pred):
+    k = (which, mode, pi, pred)
+    if k not in self.memo:
+      self.memo[k] = self.procs.run(which, mode, {'kind': 'compile', 'req': self.req(pi), 'pred': pred})
+    return self.memo[k]
 
 
-def check_history(case, result, oracle, S=None):
+def check_history(case, result, oracle, mode, S=None):
   vs = []
   pool = oracle.pool
   for rec in result['records']:
@@ -492,14 +582,14 @@ def check_history(case, result, oracle, S=None):
       continue
     pi, pred = rec['request']
     got = rec['result']
-    ref_same = oracle.pristine_same(pi, pred)
-    ref_other = oracle.pristine_other(pi, pred)
+    ref_same = oracle.pristine('same', mode, pi, pred)
+    ref_other = oracle.pristine('other', mode, pi, pred)
     kind = feature_key(pool[pi])
     # hash-seed clause: two pristine processes, different hash seeds
     if comparable(ref_same) != comparable(ref_other):
       vs.append({'class': 'hashseed-dependence', 'key': kind,
                  'message': 'pristine compiles of (%s, %s) differ between PYTHONHASHSEED %s and %s: %s' % (
-                     describe(pool[pi]), pred, case['hashseed'], oracle.refserver.hashseed,
+                     describe(pool[pi]), pred, case['hashseed'], oracle.procs.ref_hashseed,
                      first_difference(ref_same, ref_other)),
                  'request': [pi, pred]})
     elif S is not None and 'error' in ref_same and ref_same.get('message') != ref_other.get('message'):
@@ -575,17 +665,19 @@ def freeze_programs(pool, used):
 
 
 def run_case(case, scratch):
-  """Replay/minimisation entry: runs in a process whose hash seed is case['hashseed']."""
+  """Replay/minimisation entry: real processes only. Runs in a fresh interpreter whose
+  hash seed is case['hashseed'] and which never compiles anything itself (it is the zygote)."""
   env()
   pool = materialise(case, scratch)
   case = dict(case, programs=pool)
-  ref = RefServer(case['ref_hashseed'])
+  procs = Procs(case['hashseed'], case['ref_hashseed'], local_is_pristine_zygote=True)
   try:
-    oracle = Oracle(pool, ref)
-    result = in_fork(lambda: run_history_here(case))
-    return [{k: v[k] for k in ('class', 'key', 'message')} for v in check_history(case, result, oracle)]
+    oracle = Oracle(pool, procs)
+    result = procs.run('same', 'fork', {'kind': 'history', 'case': case})
+    return [{k: v[k] for k in ('class', 'key', 'message')}
+            for v in check_history(case, result, oracle, 'fork')]
   finally:
-    ref.close()
+    procs.close()
 
 
 def shrink(case):
@@ -599,7 +691,7 @@ def shrink(case):
 
 def plan(tier):
   if tier == 'quick':
-    return {'batches': 16, 'timeout': 900, 'histories': 6, 'wall_budget_s': 300}
+    return {'batches': 16, 'timeout': 900, 'histories': 8, 'wall_budget_s': 300}
   return {'batches': 480, 'timeout': 2400, 'histories': 20, 'wall_budget_s': 3300}
 
 
@@ -612,14 +704,13 @@ def run_batch(seed, batch, tier, scratch):
   if ref_hashseed == hashseed:
     ref_hashseed = (hashseed + 1) % 4294967296
   env()
-  corpus = corpus_requests()
-  S.counters['corpus_files_parsable'] = len(corpus)
+  files = corpus_files()
+  S.counters['corpus_files_listed'] = len(files)
   r = core.rng(seed, PROPERTY, batch, 'pool')
-  pool = build_pool(r, scratch, corpus, tier)
-  ref = RefServer(ref_hashseed)
+  procs = Procs(hashseed, ref_hashseed, local_is_pristine_zygote=False)
   try:
-    oracle = Oracle(pool, ref)
-    # sweep: every pool request once in a pristine process under both hash seeds
+    pool = build_pool(r, scratch, files, tier, procs)
+    oracle = Oracle(pool, procs)
     sweep_ops = []
     for pi, q in enumerate(pool):
       for p in q['preds'][:2]:
@@ -627,21 +718,38 @@ def run_batch(seed, batch, tier, scratch):
     for i in range(pl['histories'] + 1):
       rr = core.rng(seed, PROPERTY, batch, 'hist', i)
       if i == 0:
-        # degenerate history: one compile per process = the pure hash-seed sweep
+        # degenerate histories: one compile per process = the pure hash-seed sweep
         histories = [[op] for op in sweep_ops]
       else:
         histories = [gen_history(rr, pool)]
+      # the first real history of every batch runs with real processes throughout
+      mode = 'fork' if i == 1 else 'reset'
       for ops in histories:
         case = {'hashseed': hashseed, 'ref_hashseed': ref_hashseed, 'ops': ops, 'programs': pool}
         if i == 0:
-          # a single compile in a fresh process IS the pristine reference under this hash seed
           op = ops[0]
-          result = {'records': [{'op': op, 'result': oracle.pristine_same(op[1], op[2]),
+          result = {'records': [{'op': op, 'result': oracle.pristine('same', 'reset', op[1], op[2]),
                                  'clock_moved': False, 'request': [op[1], op[2]]}],
                     'state': ['n/a']}
         else:
-          result = in_fork(lambda: run_history_here(case))
-        vs = check_history(case, result, oracle, S)
+          result = procs.run('same', mode, {'kind': 'history', 'case': case})
+        S.counters['process_model:' + mode] += 1
+        vs = check_history(case, result, oracle, mode, S)
+        if vs and mode == 'reset':
+          # a disagreement under the cheap model only counts if real processes show it too
+          result_f = procs.run('same', 'fork', {'kind': 'history', 'case': case})
+          vs_f = check_history(case, result_f, oracle, 'fork')
+          if not vs_f:
+            S.probes['cheap_model_disagreement_not_confirmed_by_real_processes'] += 1
+          vs = vs_f
+        elif mode == 'fork' and i:
+          # cross-validate the cheap model on this history
+          result_r = procs.run('same', 'reset', {'kind': 'history', 'case': case})
+          a = [core.digest(x.get('result')) for x in result['records']]
+          b = [core.digest(x.get('result')) for x in result_r['records']]
+          S.probes['cheap_model_cross_validated'] += 1
+          if a != b:
+            S.probes['cheap_model_differs_from_real_processes'] += 1
         S.runs += 1
         used = {op[1] for op in ops if op[0] != 'clock'}
         kinds = sorted({pool[i_]['kind'] for i_ in used})
@@ -665,32 +773,44 @@ def run_batch(seed, batch, tier, scratch):
           prev = op[0]
         if len(ops) >= 3 and len(used) >= 2:
           S.nontrivial.add(core.digest64([ops, [pool[i_]['main'] for i_ in sorted(used)]]))
-        if result['state'][0] == 'fun':
-          S.probes['history_switched_on_experimental_syntax'] += 1
+        seen_incant = False
+        for op in ops:
+          if op[0] != 'clock' and pool[op[1]]['kind'] == 'incant':
+            seen_incant = True
+          elif op[0] != 'clock' and op[0] != 'parse' and seen_incant:
+            S.probes['compile_after_a_program_that_switched_on_experimental_syntax'] += 1
+            if pool[op[1]]['kind'] == 'needs_incant':
+              S.probes['syntax_sensitive_program_compiled_after_incantation_program'] += 1
+            break
         log.add('history', core.digest([ops, [pool[i_]['main'] for i_ in sorted(used)]])[:16],
                 [core.digest(rec.get('result'))[:12] for rec in result['records'] if 'result' in rec],
                 [v['class'] for v in vs])
         if len(S.samples) < 1 and len(ops) >= 5:
-          S.samples.append({'hashseed': hashseed, 'reference_hashseed': ref_hashseed,
+          S.samples.append({'hashseed': hashseed, 'reference_hashseed': ref_hashseed, 'process_model': mode,
                             'ops': [[op[0]] + [describe(pool[op[1]]) if op[0] != 'clock' else op[1]] + list(op[2:]) for op in ops]})
         for v in vs:
           if len(S.violations) < 12:
             v = dict(v)
-            req = v.pop('request')
-            # replay case: keep the history up to and including the failing request
+            v.pop('request')
             v['case'] = {'hashseed': hashseed, 'ref_hashseed': ref_hashseed, 'ops': ops,
                          'programs': freeze_programs(pool, used)}
             S.violations.append(v)
+    S.counters['real_process_forks'] = procs.forks
+    S.counters['module_universe_resets'] = procs.resets
   finally:
-    ref.close()
+    procs.close()
   S.digests.append(log.hexdigest())
   return S
 
 
 def evidence_meta(tier):
   return {
-      'rule': ('A run is one history executed in one simulated compiling process (a fork of a pristine zygote '
-               'interpreter started with the batch PYTHONHASHSEED): 3-25 operations out of Parse(P), Compile(P, pred), '
+      'rule': ('A run is one history executed in one simulated compiling process under the batch PYTHONHASHSEED. Two process models: '
+               'REAL = a fork of a never-used zygote interpreter (first history of every batch, every confirmation, every replay); '
+               'CHEAP = the batch interpreter after a reset of its module universe (all repository modules dropped from sys.modules and '
+               're-imported; used for the bulk because process creation is the bottleneck of this sandbox). A disagreement seen under the cheap '
+               'model is re-run with real processes and only reported if it persists; one history per batch is run under both models and compared. '
+               'A history is 3-25 operations out of Parse(P), Compile(P, pred), '
                'CompileReusingRules(P, pred) (same parsed-rules object as an earlier operation), SqlAgain (second '
                'FormattedPredicateSql on the same LogicaProgram), ClockJump; failing programs (ParsingException, '
                'RuleCompileException, FunctorError, TypeErrorCaughtException raised part-way through the pipeline) are '
@@ -708,12 +828,13 @@ def evidence_meta(tier):
           'real': ['parser_py/parse.py', 'compiler/* for all dialects (universe, functors, rule_translate, expr_translate, dialects, recursion_library)',
                    'type_inference/research/infer.py'],
           'stub': ['recursion_library.time -> simulated clock', 'the import file system is a real scratch directory',
-                   'process boundary: fork of a pristine zygote; second interpreter with another PYTHONHASHSEED as reference server'],
+                   'process boundary: fork of a pristine zygote / reset of the module universe; separate interpreters with another PYTHONHASHSEED as reference servers'],
           'not_run': ['C++ parser mode (LOGICA_PARSER=CPP)', 'execution of the SQL (compilation only)']},
       'expected_probes': ['second_FormattedPredicateSql_on_same_program_compared', 'rules_object_reused_compared',
-                          'history_switched_on_experimental_syntax', 'stop_file_name_seen_after_clock_jump'],
+                          'compile_after_a_program_that_switched_on_experimental_syntax', 'syntax_sensitive_program_compiled_after_incantation_program', 'stop_file_name_seen_after_clock_jump', 'cheap_model_cross_validated'],
       'assumptions': [
           'the trivial reference model: output is a function of (program text, import tree, flags) only',
+          'the cheap process model resets only state kept in the repository\'s own modules; state kept elsewhere (os.environ, stdlib caches) is only reset in the real-process runs',
           'for a request that fails, only the exception type is compared (message wording is not SQL); wording differences between hash seeds are counted as a probe',
           'with no clock operation before it a result is compared byte for byte including stop-file digits; after a ClockJump only the digits in /tmp/logical_stop_<digits>_ are normalised',
           'asynchronous cancellation in the middle of a compile is deliberately not injected (the property speaks of programs compiled earlier, not of interrupted compilations)',
